@@ -133,7 +133,10 @@ def spec_lookup(tree, parts):
     return stack[-1]
 
 
-ADDRS = ['10.0.0.5', '10.0.0.6', '192.168.1.77', '::ffff:10.0.0.5', '::ffff:10.0.0.6', 'fd00::5', 'fd00::6', '127.0.0.1', '::1']
+ADDRS = ['10.0.0.5', '10.0.0.6', '192.168.1.77', '::ffff:10.0.0.5', '::ffff:10.0.0.6', 'fd00::5', 'fd00::6', '127.0.0.1', '::1',
+         # IPv6 addresses that merely END in the bytes of a board's IPv4 address (IPv4-compatible, NAT64, global, link-local),
+         # and IPv4 addresses that are the tail of a board's IPv6 address: never the pinned host
+         '::10.0.0.5', '64:ff9b::10.0.0.5', '2001:db8::a00:5', 'fe80::1:a00:5', '0.0.0.5', '::5']
 
 
 def gen_names(rng, serials):
